@@ -488,6 +488,10 @@ run(void *arg) {
     cs_pump(&S, 400, 120000);
     if (!cs_canary(&S))
       failsig("canary-lost", "after the injected failure a fresh session's GET /r was not answered 2.05 (code %d)", S.last_code);
+    /* and so must the session the scenario itself used ("the next operation with memory available succeeds") */
+    else if (S.sess && !cs_canary_same(&S, S.sess))
+      failsig("canary-lost:same-session", "after the injected failure a Confirmable GET /r on the scenario's own session was not answered 2.05 (code %d)",
+              S.watch_code);
   } else if (!fails_injected)
     failsig("setup-failed", "set-up failed without an injected failure");
   if (!fails_injected) {
